@@ -166,13 +166,13 @@ pub fn main_for(pid: &str) {
                         6 => Op::NewEl(*r.pick(&pool.names)),
                         7 | 8 => Op::Append(pick(&mut r, "E"), pick(&mut r, "E")),
                         9 => Op::SetAttr(pick(&mut r, "E"), *r.pick(&pool.attr_names), "v".into()),
-                        10 => if r.chance(1, 2) { Op::ClonePrefixes(pick(&mut r, "E")) } else { Op::CloneNode(pick(&mut r, "E")) },
+                        10 => if r.chance(1, 2) { Op::ClonePrefixes(pick(&mut r, "E"), vec![]) } else { Op::CloneNode(pick(&mut r, "E")) },
                         _ => if r.chance(1, 2) { Op::SetNs(pick(&mut r, "E"), *r.pick(&pool.prefixes), *r.pick(&pool.uris)) } else { Op::RmNs(pick(&mut r, "E"), *r.pick(&pool.prefixes)) },
                     }
                 }
             };
             // clone_with_prefixes is not part of the model of this stream: replace it by clone_node on replay-safe terms
-            let op = if let Op::ClonePrefixes(h) = op { Op::CloneNode(h) } else { op };
+            let op = if let Op::ClonePrefixes(h, _) = op { Op::CloneNode(h) } else { op };
             let before_content = content(&st);
             let before_decls = decls(&st);
             let before_ser = ser_all(&st);
